@@ -16,12 +16,18 @@
      interleavings, as is the collator that kept its depth counter in the instance (D29).
    What is NOT proved: that the Go code's memory accesses stay inside the table.  That is
    exercised by the race detector and by concurrent-versus-sequential runs (harness/indep.go,
-   IndepRun.v).
+   IndepRun.v), and - since the static footprint extraction - DERIVED SYNTACTICALLY for the class of
+   changes that puts mutable state where two instances reach it: tools/gofootprint (go/ast +
+   go/types) regenerates ParamsFoot.v from the Go sources; IndepFacts.static_ok is the conjunction
+   of the obligations on those tables; the C19_static_* theorems below have [static_ok = true] as
+   their premise, and coq/IndepStatic.v (compiled by ./check C19 only, so that a change of the
+   sources is reported for C19 and not for every property) proves the premise by computation and
+   closes them.  The analysis and its rules are trusted (docs/C19.md, "Static footprint extraction").
 
    Full-strength statement of the property, not proved as such:
      for every Go program made of the library's operations on distinct instances in several
      goroutines, every execution is race free and returns the sequential results. *)
-From Verif Require Import Base Params Indep IndepFacts Registry IndepProofs RegistryProofs.
+From Verif Require Import Base Params ParamsFoot Indep IndepFacts Registry IndepProofs RegistryProofs.
 Open Scope Z_scope.
 
 Theorem C19_indep_commutes_partial :
@@ -217,6 +223,48 @@ Theorem C19_package_state_inventory :
   length (filter is_registry Params.package_vars) = length Params.registry_locked.
 Proof. exact package_state_inventory. Qed.
 
+(* ---- with the static footprint extraction as the premise (closed in IndepStatic.v) ---- *)
+
+(* every cell an operation of the table writes is the cell of one of its own instances or a guarded
+   registry entry *)
+Theorem C19_static_facts_justify_table :
+  static_ok = true ->
+  forall (d : opdesc) (c : cell), In c (writes (fp_of current_facts d)) ->
+    (exists i, In i (insts d) /\ c = CInst i) \/
+    (exists k t, c = CReg k t /\ guarded current_facts c = true).
+Proof. exact static_facts_justify_table. Qed.
+
+Theorem C19_static_distinct_instances_disjoint :
+  static_ok = true ->
+  forall a b : opdesc,
+    disjoint_insts a b = true ->
+    racy_conflict current_facts a b = false /\
+    (od_cold a = false -> od_cold b = false -> conflict current_facts a b = false).
+Proof. exact static_distinct_instances_disjoint. Qed.
+
+Theorem C19_static_searches_and_rankings_share_freely :
+  static_ok = true ->
+  forall a b : opdesc,
+    read_only_fam a -> read_only_fam b -> od_cold a = false -> od_cold b = false ->
+    conflict current_facts a b = false.
+Proof. exact static_searches_and_rankings_share_freely. Qed.
+
+(* what the premise says about the Go sources: no class field is written outside the literal that
+   creates the class object; no instance field is written by a foreign function; the references kept
+   across calls and the functions writing through a parameter are exactly the reviewed ones; every
+   package-level write is inside a critical section, nothing is exported; every accessor is
+   disciplined; every method writes only fields of its own receiver *)
+Theorem C19_static_sources :
+  static_ok = true ->
+  foot_class_mutable = [] /\ foot_foreign_writes = [] /\
+  foot_shared_edges = expected_shared_edges /\ foot_escapes = expected_escapes /\
+  foot_pkgvar_unguarded = [] /\ foot_verif_pkgvar_unguarded = [] /\
+  foot_exported_vars = [] /\ foot_verif_exported_vars = expected_verif_exported_vars /\
+  (forall r, In r foot_accessors -> accessor_ok r = true) /\
+  map (fun r : accessor_row => fst (fst r)) foot_accessors = map fst Params.registry_locked /\
+  (forall m, In m foot_methods -> method_writes_own m = true).
+Proof. exact static_ok_meaning. Qed.
+
 Print Assumptions C19_indep_commutes_partial.
 Print Assumptions C19_schedule_independent.
 Print Assumptions C19_ops_commute.
@@ -233,3 +281,7 @@ Print Assumptions C19_default_sorter_shared_refuted_prefix.
 Print Assumptions C19_derived_set_shares_collator_refuted_prefix.
 Print Assumptions C19_searches_and_rankings_share_freely.
 Print Assumptions C19_searches_and_rankings_share_freely_current.
+Print Assumptions C19_static_facts_justify_table.
+Print Assumptions C19_static_distinct_instances_disjoint.
+Print Assumptions C19_static_searches_and_rankings_share_freely.
+Print Assumptions C19_static_sources.
